@@ -61,7 +61,7 @@ func colAlts() []colAlt {
 		{label: "Shape", typ: "Shape", declB: tblUnion},
 		{label: "Shapes", typ: "Shapes", declB: tblUnion + "\ntype Shapes []Shape\n"},
 		{label: "Drawing", typ: "Drawing", declB: tblUnion + "\ntype Drawing struct {\n\tMain  Shape\n\tMood  Mood\n\tExtra map[string]Circle\n}\n"},
-		{label: "Scene", typ: "Scene", declB: tblUnion + "\ntype Drawable interface {\n\tisDrawable()\n}\n\ntype Text struct {\n\tS string\n}\n\nfunc (Circle) isDrawable() {}\nfunc (Text) isDrawable()   {}\n\ntype Scene struct {\n\tMain  Shape\n\tExtra []Drawable\n}\n"},
+		{label: "Scene", typ: "Scene", declB: tblUnion + "\ntype Drawable interface {\n\tisDrawable()\n}\n\ntype Text struct {\n\tS string\n}\n\nfunc (Circle) isDrawable() {}\nfunc (Text) isDrawable()   {}\n\ntype Drawables []Drawable\n\ntype Scene struct {\n\tMain  Shape\n\tExtra Drawables\n}\n"},
 		{label: "sql.NullInt64", typ: "sql.NullInt64"},
 		{label: "sql.NullString", typ: "sql.NullString"},
 		{label: "sql.NullTime", typ: "sql.NullTime"},
